@@ -39,8 +39,11 @@ deriving Repr, DecidableEq
 `mut`: changes chain-visible state (storage, balances, nonce, code, accounts, events, governance,
 staging).  `mutQ`: opens a writable SQL transaction / savepoint (forbidden in query mode only).
 `restore`: puts state back to a recovery point.  `txctl`: recovery-point / savepoint bookkeeping.
-`cache`: per-block code/ABI caches.  `viewInc`/`viewDec`: `nestedView++` / `nestedView--`. -/
-inductive Kind | mut | mutQ | restore | txctl | cache | viewInc | viewDec
+`cache`: per-block code/ABI caches.  `viewInc`/`viewDec`: `nestedView++` / `nestedView--`.
+Markers (no effect on state): `refuse` = the function is about to return an error value (`return C.CString(msg)`),
+`exempt` = head of a function whose behaviour depends on a read-only flag without an error return (reviewed list
+`Gen.HostApi.refuseExempt`), `viewSet` = assignment to `executor.isView`. -/
+inductive Kind | mut | mutQ | restore | txctl | cache | viewInc | viewDec | refuse | exempt | viewSet
 deriving Repr, DecidableEq
 
 /-- A sink event: class and index into `Program.sinkNames`. -/
@@ -299,6 +302,34 @@ def Program.sinkName (p : Program) (i : Nat) : String := (p.sinkNames[i]?).getD 
 def Program.sitesOf (p : Program) (k : Kind → Bool) : List (String × String) :=
   p.fns.flatMap fun fn => (fn.body.sinksOf k).map fun i => (fn.name, p.sinkName i)
 
+/-- Order of the classes by what they may do: ro/markers < cache < txctl < restore < mutQ < mut. -/
+def Kind.rank : Kind → Nat
+  | .mut => 5 | .mutQ => 4 | .restore => 3 | .txctl => 2 | .cache => 1
+  | _ => 0
+
+/-- Rank of a class name of the reviewed tables (`ro` = reads). -/
+def rankOfClass : String → Option Nat
+  | "mut" => some 5 | "mutQ" => some 4 | "restore" => some 3 | "txctl" => some 2 | "cache" => some 1
+  | "ro" => some 0
+  | _ => none
+
+def Stmt.kinds : Stmt → List Kind
+  | .seq a b => a.kinds ++ b.kinds
+  | .ite _ t e => t.kinds ++ e.kinds
+  | .sink s => [s.kind]
+  | .loop b => b.kinds
+  | .scope b => b.kinds
+  | _ => []
+
+/-- Largest rank of a sink reachable from function `f` through at most `n` levels of calls; a call below that depth
+counts as rank 5. -/
+def maxRankN (p : Program) : Nat → Nat → Nat
+  | 0, _ => 5
+  | n + 1, f =>
+    match p.fn? f with
+    | none => 5
+    | some fn => ((fn.body.kinds.map Kind.rank) ++ (fn.body.callees.map (maxRankN p n))).foldl max 0
+
 def isMutKind : Kind → Bool
   | .mut => true | .mutQ => true | _ => false
 
@@ -352,6 +383,40 @@ def Program.verdicts (p : Program) : List (String × Verdict) :=
     | some fn => if fn.exported then some (fn.name, verdictOf sq sv imp i) else none
     | none => none
 
+/-- The comparison a C guard makes on the value its guard call returns: `f(..) > k`, `>= k`, `!= k`, bare `f(..)`;
+`other` = anything else (conjunctions, other operands …). -/
+inductive CCmp | gt (k : Int) | ge (k : Int) | ne (k : Int) | truthy | other
+deriving Repr, DecidableEq
+
+/-- Does the comparison hold when the guard call returned `n`?  (`other`: not known to hold.) -/
+def CCmp.eval : CCmp → Int → Bool
+  | .gt k, n => decide (n > k)
+  | .ge k, n => decide (n ≥ k)
+  | .ne k, n => decide (n ≠ k)
+  | .truthy, n => decide (n ≠ 0)
+  | .other, _ => false
+
+/-- Decidable sufficient condition for "holds for every positive value". -/
+def CCmp.allPositive : CCmp → Bool
+  | .gt k => decide (k ≤ 0)
+  | .ge k => decide (k ≤ 1)
+  | .ne k => decide (k ≤ 0)
+  | .truthy => true
+  | .other => false
+
+/-- A guard in front of the SQL execution of a registered Lua function: `if (<call>(…) <cmp>) <statement>`;
+`raises` = the guarded statement starts with a call that raises a Lua error (`luaL_error`, `lua_error`,
+`luaL_throwerror`), which does not return. -/
+structure CGuard where
+  call : String
+  cmp : CCmp
+  raises : Bool
+  text : String
+deriving Repr, DecidableEq
+
+/-- The guard stops the function when `luaCheckView` returns `n`. -/
+def CGuard.stops (g : CGuard) (n : Int) : Bool := g.call == "luaCheckView" && g.raises && g.cmp.eval n
+
 /-- A Lua function registered by a C module (lexical scan, tools/goext/hostapi_c.go). -/
 structure CLuaFn where
   file : String
@@ -365,7 +430,191 @@ structure CLuaFn where
   /-- `luaCheckView` / `sqlcheck_is_readonly_sql` / `sqlite3_stmt_readonly` calls in `cfunc`'s own body
   that lexically precede its first (transitive) SQL execution -/
   guardsBeforeStep : List String
+  /-- the same guard calls with their comparison and action -/
+  guards : List CGuard
 deriving Repr, DecidableEq
+
+/-- The C function gets as far as its SQL execution when `luaCheckView` returns `n`: it executes SQL at all and
+none of the guards in front of it stops it. -/
+def CLuaFn.reachesStep (f : CLuaFn) (n : Int) : Bool := f.sqlStep && !(f.guards.any (·.stops n))
+
+/-- Decidable form of "no positive view depth gets to the SQL execution". -/
+def CLuaFn.viewGuarded (f : CLuaFn) : Bool :=
+  f.guards.any fun g => g.call == "luaCheckView" && g.raises && g.cmp.allPositive
+
+/-! ## "Refuses with an error": flag-transparent or refusing
+
+`Stmt.transp s`: every branch of `s` whose condition tests a read-only flag has the shape of a *refusal*: with
+both flags clear the condition has a fixed value (`Cond.ff`), and the other arm — the one that can be taken only
+because a flag is set — always emits a `refuse` event (returns an error).  Soundness (`Lemmas.HostApiDeep`):
+an execution under any flags either emits `refuse`, or passes through a function marked `exempt`, or is also an
+execution with both flags clear: the flags never change what a callback does except by making it return an error. -/
+
+/-- The condition does not mention `isQuery` / `nestedView`. -/
+def Cond.flagFree : Cond → Bool
+  | .query => false | .view => false
+  | .atom _ => true | .any => true
+  | .not c => c.flagFree
+  | .and a b => a.flagFree && b.flagFree
+  | .or a b => a.flagFree && b.flagFree
+
+/-- Value of the condition when both flags are clear, if the atoms cannot change it. -/
+def Cond.ff : Cond → Option Bool
+  | .query => some false
+  | .view => some false
+  | .atom _ => none
+  | .any => none
+  | .not c => (c.ff).map (!·)
+  | .and a b =>
+    match a.ff, b.ff with
+    | some false, _ => some false
+    | _, some false => some false
+    | some true, some true => some true
+    | _, _ => none
+  | .or a b =>
+    match a.ff, b.ff with
+    | some true, _ => some true
+    | _, some true => some true
+    | some false, some false => some false
+    | _, _ => none
+
+/-- `s` can only end normally (no `ret` / `brk` / `cont` reaches its end). -/
+def Stmt.straight : Stmt → Bool
+  | .skip => true
+  | .seq a b => a.straight && b.straight
+  | .ite _ t e => t.straight && e.straight
+  | .sink _ => true
+  | .call _ => true
+  | .scope _ => true
+  | .reenter => true
+  | .loop _ => false
+  | .ret => false | .brk => false | .cont => false
+
+/-- Every execution of `s` emits an event of kind `k`. -/
+def Stmt.emitsAlways (k : Kind) : Stmt → Bool
+  | .sink s => s.kind == k
+  | .seq a b => a.emitsAlways k || (a.straight && b.emitsAlways k)
+  | .ite _ t e => t.emitsAlways k && e.emitsAlways k
+  | .scope b => b.emitsAlways k
+  | _ => false
+
+/-- Every execution of `s` that ends normally emits an event of kind `k`. -/
+def Stmt.emitsOnNormal (k : Kind) : Stmt → Bool
+  | .sink s => s.kind == k
+  | .seq a b => a.emitsOnNormal k || b.emitsOnNormal k
+  | .ite _ t e => t.emitsOnNormal k && e.emitsOnNormal k
+  | .scope b => b.emitsAlways k
+  | .ret => true | .brk => true | .cont => true
+  | _ => false
+
+/-- The body starts with the `exempt` marker. -/
+def Stmt.startsExempt : Stmt → Bool
+  | .sink s => s.kind == .exempt
+  | .seq (.sink s) _ => s.kind == .exempt
+  | _ => false
+
+def Stmt.transp : Stmt → Bool
+  | .seq a b => a.transp && b.transp
+  | .ite c t e =>
+    if c.flagFree then t.transp && e.transp
+    else match c.ff with
+      | some false => t.emitsAlways .refuse && e.transp
+      | some true => e.emitsAlways .refuse && t.transp
+      | none => false
+  | .loop b => b.transp
+  | .scope b => b.transp
+  | _ => true
+
+/-- Every function is exempt or transparent-or-refusing. -/
+def Program.refuseOK (p : Program) : Bool := p.fns.all fun fn => fn.body.startsExempt || fn.body.transp
+
+/-! ## The view bracket of `executor.call` -/
+
+/-- `s` emits no event at all, given which callees emit none (`ok`). -/
+def silentWith (ok : Nat → Bool) : Stmt → Bool
+  | .skip => true
+  | .seq a b => silentWith ok a && silentWith ok b
+  | .ite _ t e => silentWith ok t && silentWith ok e
+  | .ret => true | .brk => true | .cont => true
+  | .sink _ => false
+  | .call f => ok f
+  | .loop b => silentWith ok b
+  | .scope b => silentWith ok b
+  | .reenter => false
+
+def calleeSilent (p : Program) (inner : Stmt → Bool) (f : Nat) : Bool :=
+  match p.fn? f with
+  | some fn => inner fn.body
+  | none => false
+
+/-- no call at all -/
+def silent0 : Stmt → Bool := silentWith fun _ => false
+/-- calls followed one level -/
+def silent1 (p : Program) : Stmt → Bool := silentWith (calleeSilent p silent0)
+/-- calls followed two levels -/
+def silent2 (p : Program) : Stmt → Bool := silentWith (calleeSilent p (silent1 p))
+
+/-- `if <atom a> { nestedView++; defer nestedView-- … }` -/
+def isBracket (a : Nat) : Stmt → Bool
+  | .ite (.atom i) (.seq (.sink s1) (.loop (.scope (.sink s2)))) _ =>
+    i == a && s1.kind == .viewInc && s2.kind == .viewDec
+  | _ => false
+
+/-- Nothing is emitted before the view bracket: `s` is a sequence of silent statements followed by the bracket
+(followed by anything). -/
+def bracketFirst (p : Program) (a : Nat) : Stmt → Bool
+  | .seq x y => isBracket a x || (silent2 p x && bracketFirst p a y)
+  | s => isBracket a s
+
+/-- Index of an atom by its text. -/
+def Fn.atomIdx? (fn : Fn) (t : String) : Option Nat :=
+  let rec go : List String → Nat → Option Nat
+    | [], _ => none
+    | x :: rest, i => if x == t then some i else go rest (i + 1)
+  go fn.atoms 0
+
+/-- Everything but a final `ret` of a right-nested sequence. -/
+def Stmt.dropFinalRet : Stmt → Option Stmt
+  | .seq a .ret => some a
+  | .seq a b => (b.dropFinalRet).map (.seq a ·)
+  | _ => none
+
+/-! ## View depth, abstractly
+
+What `executor.call` (for functions the ABI declares as views), `luaViewStart` and `luaViewEnd` do to
+`vmContext.nestedView`, against the specification "some function on the call stack is a view". -/
+namespace ViewDepth
+
+/-- A function is entered (`view` = declared as a view) or the innermost one returns / is unwound. -/
+inductive Ev | enter (view : Bool) | leave
+deriving Repr, DecidableEq
+
+/-- The implementation: a counter; `enter true` increments, leaving a view frame decrements (the deferred
+`nestedView--` / `luaViewEnd`).  The stack of frames is what the Lua / Go call stack is. -/
+structure St where
+  counter : Nat
+  stack : List Bool
+deriving Repr, DecidableEq
+
+/-- `none`: `leave` with nothing entered (not a prefix of a well-bracketed run). -/
+def step (s : St) : Ev → Option St
+  | .enter true => some ⟨s.counter + 1, true :: s.stack⟩
+  | .enter false => some ⟨s.counter, false :: s.stack⟩
+  | .leave =>
+    match s.stack with
+    | [] => none
+    | true :: rest => some ⟨s.counter - 1, rest⟩
+    | false :: rest => some ⟨s.counter, rest⟩
+
+def run : St → List Ev → Option St
+  | s, [] => some s
+  | s, e :: es => (step s e).bind (run · es)
+
+/-- The specification: number of view frames that are open. -/
+def openViews (st : List Bool) : Nat := (st.filter id).length
+
+end ViewDepth
+
 
 /-! ## Recovery points, abstractly (`restore`-class sinks)
 
@@ -401,6 +650,12 @@ def run {S : Type} : St S → List (Op S) → Option (St S)
 def Op.isMutate {S : Type} : Op S → Bool
   | .mutate _ => true
   | _ => false
+
+/-- The operation cannot change the observable `root`: it is a snapshot, a restore, or an update under which
+`root` is invariant (caches, counters, bookkeeping). -/
+def Op.preserves {S R : Type} (root : S → R) : Op S → Prop
+  | .mutate f => ∀ s, root (f s) = root s
+  | _ => True
 
 end Snap
 
